@@ -113,6 +113,47 @@ def probe_memo(ns):
     return out
 
 
+def probe_deep_nesting():
+    """sentences that nest a recursive rule 12 ... 150 deep (user grammar, the ABNF reader's own group/option rules, nested comments
+    of bundled grammars): each IS a sentence, so the outcome is success or RecursionError, never ParseError/GrammarError; and the
+    depth at which the interpreter gives up does not change what is returned below it"""
+    import importlib
+    out = []
+    cls = type("DN", (Rule,), {})
+    cls.create('nest = "(" *nest ")" / "x"')
+    cls.create('opt = "[" [ opt ] "]" [ opt ]')
+    probes = []
+    for n in (12, 25, 40, 60, 90, 120, 150):
+        probes.append(("user nest", cls("nest"), "(" * n + "x" + ")" * n, n))
+        probes.append(("user opt", cls("opt"), "[" * n + "]" * n, n))
+    from abnf.parser import ABNFGrammarRule
+    for n in (5, 10, 15, 20, 25, 30, 40):
+        probes.append(("reader element (nested groups)", ABNFGrammarRule("element"), "(" * n + "a" + ")" * n, n))
+        probes.append(("reader rule (nested options)", ABNFGrammarRule("rule"), "r = " + "[" * n + "a" + "]" * n + "\r\n", n))
+    for mod, rule, mk in (("rfc5322", "comment", lambda n: "(" * n + ")" * n), ("rfc7230", "comment", lambda n: "(" * n + ")" * n),
+                          ("rfc9110", "comment", lambda n: "(" * n + "a" + ")" * n), ("rfc5234", "element", lambda n: "(" * n + "a" + ")" * n),
+                          ("rfc7405", "element", lambda n: "[" * n + '%s"a"' + "]" * n)):
+        try:
+            M = importlib.import_module("abnf.grammars." + mod)
+        except Exception:  # noqa: BLE001
+            continue
+        for n in (5, 12, 20, 30, 45, 60, 80, 105):
+            probes.append((f"{mod} {rule}", M.Rule(rule), mk(n), n))
+    for name, rule, s, n in probes:
+        try:
+            rule.parse_all(s)
+            r = "ok"
+        except RecursionError:
+            r = "RecursionError"
+        except (ParseError, GrammarError) as e:
+            r = type(e).__name__
+        except Exception as e:  # noqa: BLE001
+            r = "EXC:" + type(e).__name__
+        if r not in ("ok", "RecursionError"):
+            out.append({"rule": name, "depth": n, "length": len(s), "outcome": r})
+    return out[:12]
+
+
 def probe_long_sources():
     """long sources (past 4 096 and 65 536 characters) carrying NUL, non-BMP characters and lone surrogates, at offsets 0 / middle /
     end: every call returns or raises ParseError (the property's exception clause does not depend on the length of the input)"""
@@ -150,7 +191,7 @@ def main():
     ns = [6, 7, 8, 9, 10, 11, 12]
     json.dump({"recursion_limit": sys.getrecursionlimit(), "recursion_400": probe_recursion(400),
                "recursion_100": probe_recursion(100), "work_ns": ns, "work_calls": probe_work(ns),
-               "memo_probes": probe_memo([2, 4, 6, 8, 10, 12, 14]), "long_sources": probe_long_sources()}, open(a.out, "w"))
+               "memo_probes": probe_memo([2, 4, 6, 8, 10, 12, 14]), "long_sources": probe_long_sources(), "deep_nesting": probe_deep_nesting()}, open(a.out, "w"))
 
 
 if __name__ == "__main__":
